@@ -32,6 +32,18 @@ reg(
     "property-based testing (Hypothesis) against a reference selection rule, prefix-wise",
 )
 
+reg(
+    "C02",
+    "A drawn list of up to 25 operations (all public mutations of DesignSpace interleaved with drawn cache-filling "
+    "queries) is applied to a real DesignSpace and to a list-of-records model; after every mutation the cheap views "
+    "(names, sizes, types, index ranges, per-variable bounds) and at every query / at the end all array views, "
+    "normalisation, its inverse, gradient scalings, membership, projection, conversions and == are compared with the "
+    "model. Sampling of histories: bounded length, no proof of absence; found and repaired 5 genuine defects.",
+    "Trusted: numpy, the harness model (checks/c02_design_space.py). Inputs respect the documented preconditions "
+    "(lb<=ub, integer bounds for integer variables, values inside bounds, rename to an unused name).",
+    "model-based stateful property testing (Hypothesis operation lists) against a list-of-records reference model",
+)
+
 NOT_YET: dict[str, str] = {}
 
 
